@@ -71,10 +71,25 @@ def cxn_group(gid, h, scale, values, xsd=False):
     """xsd=True (C03 host): "x" = the XSD monitor's verdict on the slide part after every real call."""
     from pptx.enum.shapes import MSO_CONNECTOR
     b = bench()
-    sc = lambda a: {k: (v * scale if k in ("bx", "by", "ex", "ey", "v") else v) for k, v in a.items()}  # noqa: E731
+    sc = lambda a: {k: (v * scale if k in ("bx", "by", "ex", "ey", "v", "x", "y", "cx", "cy") else v) for k, v in a.items()}  # noqa: E731
     a0 = sc(h[0])
     kind = [MSO_CONNECTOR.STRAIGHT, MSO_CONNECTOR.ELBOW, MSO_CONNECTOR.CURVE][len(h) % 3]
-    c = b.slide.shapes.add_connector(kind, a0["bx"], a0["by"], a0["ex"], a0["ey"])
+    if a0["op"] == "load":
+        # a connector as a document holds it: the frame attributes are written into the tree with lxml, the proxy is made afterwards
+        c = b.slide.shapes.add_connector(kind, 0, 0, 1, 1)
+        _, _, _, _, xf = _box(c._element)
+        xf.find("{%s}off" % A).set("x", str(a0["x"]))
+        xf.find("{%s}off" % A).set("y", str(a0["y"]))
+        xf.find("{%s}ext" % A).set("cx", str(a0["cx"]))
+        xf.find("{%s}ext" % A).set("cy", str(a0["cy"]))
+        for attr, on in (("flipH", a0["fh"]), ("flipV", a0["fv"])):
+            if on:
+                xf.set(attr, "1")
+            elif attr in xf.attrib:
+                del xf.attrib[attr]
+        c = b.slide.shapes[-1]
+    else:
+        c = b.slide.shapes.add_connector(kind, a0["bx"], a0["by"], a0["ex"], a0["ey"])
     path = [{"a": a0, "t": cxn_state(c), "x": _mon(b.slide, xsd)}]
     for a in h[1:]:
         a = sc(a)
